@@ -16,6 +16,10 @@ pub mod store {
     mod h {
         include!("/verif/kani/core/src/h/util.rs");
         include!("/verif/kani/core/src/h/c02.rs");
+        include!("/verif/kani/core/src/h/c01.rs");
+        include!("/verif/kani/core/src/h/c01_gen.rs");
+        #[cfg(kani)]
+        include!("/verif/kani/core/src/h/probe.rs");
     }
 }
 
